@@ -176,9 +176,87 @@ def directed(rng, ops):
     return ops[:at] + block + ops[at:]
 
 
+def extras(ctx: Ctx):
+    """Calls outside the tree model - attached files, images of a GeoImage, comments - judged by the frame rule itself on the
+    real file: a call on one entity may change that entity's node, the nodes it creates (and, for a comment, the entity's
+    existing comments child) and the type nodes it creates or that already belonged to the target; nothing else.  Oracle only:
+    these operations have no counterpart in the Lean model."""
+    import os
+    import warnings
+    import numpy as np
+    from geoh5py.groups import ContainerGroup
+    from geoh5py.objects import Curve, GeoImage, Points
+    from geoh5py.workspace import Workspace
+    warnings.filterwarnings("ignore")
+    rng = ctx.rng
+    notes = ctx.scratch / "notes.txt"
+    notes.write_text("attached file")
+    for i in range(ctx.n(12, 300)):
+        path = ctx.scratch / f"c09x_{i}.geoh5"
+        steps = [rng.choice(["add_file", "add_file", "set_image", "comment", "comment"]) for _ in range(rng.randrange(3, 9))]
+        case = {"part": "extras", "steps": steps, "seed": rng.randrange(1 << 30)}
+        r2 = __import__("random").Random(case["seed"])
+        failures = []
+        try:
+            with Workspace.create(path) as ws:
+                g = ContainerGroup.create(ws, name="G")
+                ents = [g, Points.create(ws, vertices=np.zeros((3, 3)), parent=g, name="P"),
+                        Curve.create(ws, vertices=np.ones((4, 3)), name="C")]
+                ents[1].add_data({"d": {"values": np.arange(3.0)}})
+                imgs = [GeoImage.create(ws, name="img1"), GeoImage.create(ws, name="img2", parent=g)]
+                for step in steps:
+                    before = wsh.node_digests(ws.geoh5)
+                    types_of_children = lambda t, pred: {"{" + str(c.entity_type.uid) + "}" for c in t.children  # noqa: E731
+                                                          if pred(c) and getattr(c, "entity_type", None) is not None}
+                    child_types = set()
+                    if step == "add_file":
+                        target = r2.choice(ents + imgs)
+                        target.add_file(str(notes))
+                        own = set()
+                    elif step == "set_image":
+                        target = r2.choice(imgs)
+                        own = {"{" + str(c.uid) + "}" for c in target.children}            # an earlier image child is replaced
+                        child_types = types_of_children(target, lambda c: True)
+                        target.image = np.asarray(r2.choices(range(255), k=64), dtype="uint8").reshape(8, 8)
+                    else:
+                        target = r2.choice(ents)
+                        own = {"{" + str(c.uid) + "}" for c in target.children if type(c).__name__ == "CommentsData"}
+                        child_types = types_of_children(target, lambda c: type(c).__name__ == "CommentsData")
+                        target.add_comment(f"note {r2.randrange(100)}", author="harness")
+                    after = wsh.node_digests(ws.geoh5)
+                    tkey = "{" + str(target.uid) + "}"
+                    changed = {k for k in set(before["nodes"]) | set(after["nodes"]) if before["nodes"].get(k) != after["nodes"].get(k)}
+                    bad = {k for k in changed if k != tkey and k in before["nodes"] and k not in own}
+                    if bad:
+                        failures.append((f"{step} on {type(target).__name__} '{target.name}' also changed stored nodes {sorted(bad)}",
+                                         f"C09:{step}:touched-unrelated-node"))
+                    own_types = {"{" + str(target.entity_type.uid) + "}"}
+                    tch = {k for k in before["types"] if before["types"].get(k) != after["types"].get(k)}
+                    # the type of an image/comments child the target already had may be rewritten or released with it
+                    tbad = tch - own_types - child_types
+                    if tbad:
+                        failures.append((f"{step} on {type(target).__name__} '{target.name}' changed type nodes {sorted(tbad)} that existed before the call",
+                                         f"C09:{step}:touched-unrelated-type"))
+                    if before["header"] != after["header"]:
+                        failures.append((f"{step} changed the project header", "C09:header-changed"))
+                    ctx.count("extras:" + step)
+        except Exception as e:  # noqa: BLE001
+            failures.append((f"extras history raised {type(e).__name__}: {str(e)[:100]}", f"C09:extras-raises-{type(e).__name__}"))
+        finally:
+            if path.exists():
+                os.remove(path)
+        ctx.case(case, nontrivial=len(set(steps)) >= 2)
+        for what, sig in failures:
+            ctx.fail(case, what, sig)
+
+
 def run(ctx: Ctx):
-    wscheck.run_props(ctx, WANT, hook=make_hook(), n_quick=40, n_thorough=1000, weights={"retype": 6, "add_data": 10}, shape=directed)
+    extras(ctx)
+    wscheck.run_props(ctx, WANT, hook=make_hook(), n_quick=40, n_thorough=1000, weights={"retype": 6, "add_data": 10, "reattach": 0}, shape=directed)  # reattach: its file effect (the link) is deferred to the close by design
 
 
 def replay(ctx: Ctx, payload):
+    if (payload.get("case") or {}).get("part") == "extras":
+        extras(ctx)
+        return
     wscheck.replay_props(ctx, payload, WANT, hook=make_hook())
